@@ -211,6 +211,35 @@ def run_one(args):
 ALL_PROPS = '--all-props' in sys.argv
 
 
+def run_tests(job):
+    """Does the mutant pass the repository's test suite? (scratch copy under a temp dir, removed afterwards)"""
+    import shutil
+    import tempfile
+    rel, desc, new_src = job
+    d = tempfile.mkdtemp(prefix='sweep-')
+    try:
+        for item in ('mitxgraders', 'voluptuous', 'tests', 'docs', 'conftest.py', 'pytest.ini', 'mkdocs.yml', 'README.md', 'course', 'python_lib.zip'):
+            srcp = os.path.join('/repo', item)
+            if os.path.isdir(srcp):
+                shutil.copytree(srcp, os.path.join(d, item), ignore=shutil.ignore_patterns('__pycache__'))
+            elif os.path.exists(srcp):
+                shutil.copy(srcp, os.path.join(d, item))
+        with open(os.path.join(d, rel), 'w', encoding='utf-8') as f:
+            f.write(new_src)
+        desel = []
+        for l in open(os.path.join(VERIF, 'tools', 'preexisting_failures.txt')):
+            if l.strip():
+                desel += ['--deselect', l.strip()]
+        p = subprocess.run(['/venv/bin/python', '-m', 'pytest', '-q', '-p', 'no:cacheprovider', '--timeout=300', '-x'] + desel,
+                           cwd=d, stdout=subprocess.PIPE, stderr=subprocess.STDOUT, timeout=900)
+        out = p.stdout.decode(errors='replace')
+        return rel, desc, p.returncode == 0
+    except Exception:
+        return rel, desc, False
+    finally:
+        shutil.rmtree(d, ignore_errors=True)
+
+
 def main():
     prop = sys.argv[1].upper()
     limit = 300
@@ -234,9 +263,20 @@ def main():
     by = {0: [], 1: [], 2: [], 3: []}
     for desc, rel, code, rule in results:
         by[code].append((rel, desc, rule))
+    survivors = []
+    if '--tests' in sys.argv and by[0]:
+        src_of = {(rel, desc): new_src for (_, rel, desc, new_src) in tasks}
+        jobs = [(rel, desc, src_of[(rel, desc)]) for rel, desc, _ in by[0]]
+        with ProcessPoolExecutor(max_workers=12) as ex:
+            outcomes = list(ex.map(run_tests, jobs))
+        survivors = [(rel, desc) for (rel, desc, ok) in outcomes if ok]
     print('%s: %d mutants in %d functions: reported %d, analysis-error %d, silent %d, crashed %d' % (
         prop, len(results), sum(len(q) for q in anchors.values()), len(by[1]), len(by[2]), len(by[0]), len(by[3])))
-    if '--list' in sys.argv:
+    if '--tests' in sys.argv:
+        print('   of the %d silent mutants, %d also pass the repository test suite:' % (len(by[0]), len(survivors)))
+        for rel, desc in sorted(survivors):
+            print('  SILENT+TESTS-PASS %s %s' % (rel.split('/')[-1], desc))
+    elif '--list' in sys.argv:
         for rel, desc, rule in sorted(by[0]):
             print('  SILENT %s %s' % (rel.split('/')[-1], desc))
         for rel, desc, rule in sorted(by[3]):
